@@ -96,7 +96,7 @@ macro_rules! each_feature_type {
 			SNamed, STuple, SUnit, SCompact, SSkip, SSingleCompact, SSingle, SEncodedAs, SGeneric<u16>, SGeneric<String>,
 			STransp, Box<STransp>, [STransp; 3], Box<STranspBig>, Vec<STransp>, CA, Compact<CA>, SHasCompact,
 			EPlain, EDisc, EIdx, ESkip, EBoth, SWide, EWide, Vec<SWide>, STranspSk, Box<STranspSk>, (Box<STranspSk>, u32), [STranspSk; 2],
-			[EV1; 3], Vec<[EV1; 2]>, ([EV1; 2], u8), Vec<EV1>, LinkedList<EV1>, BTreeMap<u8, EV1>, SZ, Vec<SZ>, (Vec<SZ>, u8), STranspCM, Box<STranspCM>, [STranspCM; 3], Box<STranspEA>, [STranspEA; 2], EV1, Box<EV1>, Rc<EV1>, (Box<EV1>, u8), Vec<Box<EV1>>, [Box<EV1>; 2], STranspZ, Box<STranspZ>, [STranspZ; 3], Rc<STranspZ>, (Box<STranspZ>, u16), STranspC, Box<STranspC>, [STranspC; 3], Rc<STranspC>, (u8, Box<STransp>), Vec<EPlain>, Option<EIdx>, [ESkip; 2], Box<EPlain>,
+			[EV1; 3], Vec<[EV1; 2]>, ([EV1; 2], u8), Vec<EV1>, LinkedList<EV1>, BTreeMap<u8, EV1>, LinkedList<SZ>, Vec<STranspBig>, Vec<[u64; 100]>, VecDeque<[u32; 70]>, BinaryHeap<[u8; 200]>, (u8, Vec<[u16; 300]>), SZ, Vec<SZ>, (Vec<SZ>, u8), STranspCM, Box<STranspCM>, [STranspCM; 3], Box<STranspEA>, [STranspEA; 2], EV1, Box<EV1>, Rc<EV1>, (Box<EV1>, u8), Vec<Box<EV1>>, [Box<EV1>; 2], STranspZ, Box<STranspZ>, [STranspZ; 3], Rc<STranspZ>, (Box<STranspZ>, u16), STranspC, Box<STranspC>, [STranspC; 3], Rc<STranspC>, (u8, Box<STransp>), Vec<EPlain>, Option<EIdx>, [ESkip; 2], Box<EPlain>,
 			SMelGeneric<u32>, SMelCA, EMelCompact, RV, RB, Tree, RM, RL, Vec<SNamed>, Vec<SUnit>, BTreeMap<u8, EPlain>, Vec<SCompact>
 		);
 		#[cfg(feature = "bit-vec")]
